@@ -14,13 +14,14 @@ extra=""
 grep -q "PIQP_VERIF" $in/demo.cpp && extra="-DPIQP_VERIF"
 grep -q "matio\|io_utils" $in/demo.cpp && libs="-lmatio" || libs=""
 grep -q "piqp.h" $in/demo.cpp && inc="-I$wt/interfaces/c/include" || inc=""
+csrc=""; if grep -q "piqp.h" $in/demo.cpp && ! grep -q 'piqp.cpp"' $in/demo.cpp; then csrc="$wt/interfaces/c/src/piqp.cpp"; fi
 sed "s#/tmp/wt_[a-z0-9]*#$wt#g" $in/demo.cpp > $wt/demo.cpp
-g++ -std=c++14 -O1 $extra -I$wt/include $inc -I/usr/include/eigen3 demo.cpp -o demo0 $libs > demo0.log 2>&1; c0=$?
+g++ -std=c++14 -O1 $extra -I$wt/include $inc -I/usr/include/eigen3 demo.cpp $csrc -o demo0 $libs > demo0.log 2>&1; c0=$?
 r0=-1; [ $c0 = 0 ] && { timeout 600 ./demo0 $wt > demo0.out 2>&1; r0=$?; }
 applies=1; git apply $in/patch.diff 2> apply.log || applies=0
 r1=-1; tests="not run"; c1=-1
 if [ $applies = 1 ]; then
-  g++ -std=c++14 -O1 $extra -I$wt/include $inc -I/usr/include/eigen3 demo.cpp -o demo1 $libs > demo1.log 2>&1; c1=$?
+  g++ -std=c++14 -O1 $extra -I$wt/include $inc -I/usr/include/eigen3 demo.cpp $csrc -o demo1 $libs > demo1.log 2>&1; c1=$?
   [ $c1 = 0 ] && { timeout 600 ./demo1 $wt > demo1.out 2>&1; r1=$?; }
   cmake -G Ninja -S . -B _b -DCMAKE_BUILD_TYPE=RelWithDebInfo -DBUILD_TESTS=ON -DBUILD_MAROS_MESZAROS_TEST=ON -DBUILD_C_INTERFACE=ON \
     -DBUILD_WITH_TEMPLATE_INSTANTIATION=ON -DFETCHCONTENT_SOURCE_DIR_GOOGLETEST=/usr/src/googletest -DFETCHCONTENT_FULLY_DISCONNECTED=ON > cmake.log 2>&1 \
